@@ -3,7 +3,7 @@ import RedisVerif.Model.AntiEntropy
 
 /-
   C18 sub-driver (stateful).  The state holds the tables of REAL hash values that instantiate
-  the model's abstract `Hasher` (key hash per key, value hash per (time, replica, live bytes),
+  the model's abstract `Hasher` (key hash per key, value hash per value stream (`AE.currentStream`),
   word-stream hash per stream) and two state slots `a`, `b` with their real iteration orders.
 
     RESET                                              forget tables and slots          → ok
@@ -29,7 +29,7 @@ structure Slot where
 
 structure St where
   keyTab : List (Nat × Nat)
-  valTab : List ((Nat × Nat × Option Bytes) × Nat)
+  valTab : List (List Nat × Nat)
   wordsTab : List (List Nat × Nat)
   a : Slot
   b : Slot
@@ -42,7 +42,7 @@ def missing : Nat := 18446744073709551616
 
 def St.hasher (st : St) : Hasher :=
   { key := fun k => (st.keyTab.lookup k).getD missing
-    val := fun t r l => (st.valTab.lookup (t, r, l)).getD missing
+    val := fun stream => (st.valTab.lookup stream).getD missing
     words := fun ws => (st.wordsTab.lookup ws).getD missing }
 
 def slotTok : P Bool := do
@@ -84,10 +84,10 @@ def cmd (st : St) : P (St × String) := do
     let n ← nat
     let es ← repeatP n entry
     -- extend the tables, counting conflicts
-    let (kt, vt, c) := es.foldl (fun (acc : List (Nat × Nat) × List ((Nat × Nat × Option Bytes) × Nat) × Nat) e =>
+    let (kt, vt, c) := es.foldl (fun (acc : List (Nat × Nat) × List (List Nat × Nat) × Nat) e =>
       let (kt, vt, c) := acc
       let (k, kh, vh, v) := e
-      let pk := (v.ts.time, v.ts.rid, v.get)
+      let pk := currentStream v
       let (kt, c) := match kt.lookup k with
         | some x => (kt, if x == kh then c else c + 1)
         | none => ((k, kh) :: kt, c)
@@ -119,7 +119,7 @@ def cmd (st : St) : P (St × String) := do
     let nb ← nat
     let bs ← repeatP nb nat
     let s := st.slot isA
-    let ks := getKeysInBuckets st.hasher s.depth limit s.order s.state bs
+    let ks := getKeysInBuckets st.hasher currentStream s.depth limit s.order s.state bs
     pure (st, " ".intercalate ("g" :: ks.map (fun p => showKey p.1)))
   | "SYNC" => do
     let limit ← nat
